@@ -71,9 +71,13 @@ Proof. exact builtin_ing_raw_on_success. Qed.
 (* Classification of the seven built-in formats, over the tables extracted from the source. *)
 Theorem builtin_classification :
   Forall (fun reader_cont =>
-    forall c, continuable_ingester reader_cont c = true <-> (c <> RcEOF /\ c <> RcFatal))
+    forall c, c <> RcLatched ->
+      (continuable_ingester reader_cont c = true <-> (c <> RcEOF /\ c <> RcFatal)))
     all_formats.
 Proof. exact builtin_classification. Qed.
+
+Theorem csv_latched_not_continuable : continuable_ingester continuable_csv RcLatched = false.
+Proof. exact csv_latched_not_continuable. Qed.
 
 Theorem builtin_formats_complete : length all_formats = 7.
 Proof. exact builtin_formats_complete. Qed.
